@@ -120,6 +120,10 @@ func main() {
 		geomMain(os.Args[2])
 		return
 	}
+	if len(os.Args) > 2 && os.Args[1] == "-str" { // T1 translator of the string helpers of shp.go (strfn.go)
+		strMain(os.Args[2])
+		return
+	}
 	repo := "/repo"
 	if len(os.Args) > 1 {
 		repo = os.Args[1]
